@@ -164,6 +164,15 @@ class C17(RailsProp):
                 lit = text.strip().strip('"')
                 if lit not in rec.reply:
                     out.violate("template-evaluated", "%s:%s:%s" % (mode, task, name), "LLM reply %r at call %d (%s) came back as %r: the text in front of the marker was substituted" % (text, pos, task, rec.reply), pin={"hostile": [list(fault)]})
+            # a well-formed quoted value: if its sentinel-wrapped text reached the reply at all, it is there character by character
+            # (only where the reply is read as a value, and only for template / variable syntax - escape sequences are not the property's subject)
+            if name in ("shaped-value-jinja", "shaped-value-var") and task == "v2-value" and isinstance(rec.reply, str) and "Q7" in rec.reply and "Q7" not in base_replies:
+                import ast
+                seg = SENTINEL_RE.search(ast.literal_eval(text.strip())).group(0)
+                if seg in rec.reply:
+                    out.probe("template_text_survived_literally")
+                elif not any(v.oracle == "template-evaluated" for v in out.violations[-1:]):
+                    out.violate("template-evaluated", "%s:%s:%s" % (mode, task, name), "LLM value %r at call %d (%s) came back as %r: the text %r was altered" % (text, pos, task, rec.reply, seg), pin={"hostile": [list(fault)]})
             if evaluated and isinstance(rec.reply, str) and text.strip().strip('"') in rec.reply:
                 out.probe("template_text_survived_literally")
         return task
@@ -198,7 +207,7 @@ class C17(RailsProp):
                 # always included: the classic trouble-makers, one position-shaped reply, and the replies that are
                 # dangerous for this particular call (a generated flow that only waits; literals for value generation)
                 lab = self._base_tasks[p]
-                special = ("shaped-steps-user-only", "newlines", "blank-then-prose") if "next_steps" in lab else (("ellipsis", "python-import") if lab == "v2-value" else ())
+                special = ("shaped-steps-user-only", "newlines", "blank-then-prose") if "next_steps" in lab else (("ellipsis", "python-import", "python-bytes", "python-complex", "python-set", "shaped-value-jinja", "shaped-value-var", "shaped-value-backslash") if lab == "v2-value" else ())
                 if "bot_message" in lab or lab in ("general", "generate_intent_steps_message", "v2-other", "unknown"):
                     special = special + ("dollar-price", d.choice(["dollar-var-first", "dollar-var-quoted"], "dollar", p))
                 for must in ("empty", "jinja-expr", "shaped-steps-inline-jinja", d.choice(corpus.SHAPED, "shaped", p)) + special:
